@@ -19,11 +19,66 @@ UNITS = {
     'unitA': {'spec': 'unitA.vrs'},
     'unitB': {'spec': 'unitB.vrs'},
     'unitD': {'spec': 'unitD.vrs', 'threads': 8},
+    'unitI': {'spec': 'unitI.vrs'},
     'unitF': {'spec': 'unitF.vrs', 'expanded': True, 'threads': 8},
     'unitC': {'spec': 'unitC.vrs', 'expanded': True, 'threads': 16, 'timeout': 2400},
 }
 
 PROPS = {
+    'C12': {
+        'units': ['unitI'],
+        'obligations': ['I.emit_wasm'],
+        'assumptions': ['A-deps', 'A-std', 'A-iter', 'A-ext', 'A-extract', 'A-verus'],
+        'rules': 'R1 R2 R4c (the custom-section loop of emit_wasm replaced by its summary contract) R6; panic mode: absent',
+        'claimed': [
+            'Module::emit_wasm (whole real function): leaves every field of the module as it was, custom sections included (emit twice / repeated emit); writes, after all standard sections, exactly one section per live non-.debug custom section in arena order with the same name and bytes',
+        ],
+        'unclaimed': [
+            'raw capture at parse (Payload::CustomSection arm) and the body of the emission loop (dyn CustomSection, str::starts_with): assumed summary + bounded stand-in',
+            'ModuleCustomSections (dyn Any downcasts) and the GC frame on customs: bounded stand-in only',
+        ],
+        'standins': [
+            {'fn': 'custom-section capture, emission loop body, gc', 'argv': ['customs'],
+             'bound': '12 layouts (0..4 custom sections, every placement between standard sections, duplicate/empty/look-alike names, 0..256-byte payloads) x {emit, gc+emit, emit twice, gc+emit twice}: (name, bytes) list of the output equals the input',
+             'why': 'trait objects / Any downcasts are outside Verus'},
+        ],
+    },
+    'C14': {
+        'units': ['unitI'],
+        'assumptions': ['A-deps', 'A-std', 'A-ext', 'A-extract', 'A-verus'],
+        'rules': 'R1 R2 R4c R6; panic mode: absent',
+        'claimed': [
+            'ModuleConfig setters (generate_dwarf, generate_name_section, generate_producers_section, only_stable_features, strict_validate, preserve_code_transform): each changes exactly its switch (generate_dwarf also turns on code-transform preservation), whole-struct frame',
+            'get_wasmparser_wasm_features: exactly the finished proposals, plus multi-memory, memory64 and threads iff not only_stable_features',
+            'Module::emit_wasm: a name / producers / DWARF section is written only if its switch allows it, and no other section depends on the switches',
+        ],
+        'unclaimed': [
+            'ModuleProducers::field (merge, "exactly once"), parse_producers_section, on_parse call count, DWARF capture: bounded stand-in only (string comparison loops / callbacks)',
+        ],
+        'standins': [
+            {'fn': 'producers merge, DWARF carry-over, on_parse callback, switches end to end', 'argv': ['config'],
+             'bound': 'all 2^3 switch combinations x inputs with/without name, producers (3 variants), DWARF sections (96 cases) + 3 invalid inputs; 4 consecutive round trips for the producers clause',
+             'why': 'string loops and boxed callbacks are outside Verus'},
+        ],
+    },
+    'C08': {
+        'units': ['unitI'],
+        'obligations': ['I.emit_wasm'],
+        'assumptions': ['A-deps', 'A-std', 'A-iter', 'A-extract', 'A-verus'],
+        'rules': 'R1 R2 R4c R6; panic mode: absent',
+        'claimed': [
+            'Module::emit_wasm leaves the module unchanged (every field equal, custom sections restored), so a repeated emit starts from the same state; the bytes are a function of the sections written',
+        ],
+        'unclaimed': [
+            'that every order reaching the output is a function of the abstract state (type sort, function sort, locals layout, name maps): not under contract yet -> bounded stand-in',
+            'byte identity across processes and the fixpoint clause: bounded stand-in only',
+        ],
+        'standins': [
+            {'fn': 'repeated emission and fixpoint', 'argv': ['emit-twice'],
+             'bound': '19 modules (entity corpus + custom sections): three emits of one Module value byte-identical; parse(emit(m)) emits the same bytes',
+             'why': 'whole-pipeline determinism is not a per-function property'},
+        ],
+    },
     'C04': {
         'units': ['unitD'],
         'assumptions': ['A-deps', 'A-arena', 'A-std', 'A-iter', 'A-float', 'A-limits', 'A-extract', 'A-verus'],
